@@ -24,7 +24,11 @@ A0 == [ nOde |-> 0, nOdeJ |-> 0, nJac |-> 0, nEv |-> 0, nCb |-> 0,
         evalOut |-> 0, maxEval |-> -1,
         lastX |-> -1, lastXb |-> "", interrupted |-> FALSE, afterStop |-> 0,
         modPending |-> "", modBad |-> 0, cbBad |-> 0, ipBad |-> 0, active |-> FALSE,
-        recent |-> {}, needDeriv |-> "", derivBad |-> 0 ]
+        recent |-> {}, needDeriv |-> "", derivBad |-> 0,
+        \* Level B (Stepper.tla) conformance for the explicit solvers on low-level runs:
+        iv |-> <<>>,            \* ranks of the stepper evaluations since the last callback
+        prevMod |-> FALSE,      \* the last callback returned ModifiedSolution (one re-evaluation follows it)
+        mAtt |-> 0, mAcc |-> 0, mRej |-> 0, mTot |-> 0, lbBad |-> 0 ]
 
 TraceInit == l = 1 /\ C = NoCall /\ A = A0
 
@@ -54,7 +58,8 @@ TraceOde ==
                          !.modBad = IF modok THEN @ ELSE @ + 1,
                          !.modPending = IF plain THEN "" ELSE @,
                          !.recent = IF plain THEN @ \cup {e.d} ELSE @,
-                         !.needDeriv = IF plain /\ e.d = @ THEN "" ELSE @]
+                         !.needDeriv = IF plain /\ e.d = @ THEN "" ELSE @,
+                         !.iv = IF plain /\ Len(@) < 4000 THEN Append(@, e.r) ELSE @]
     /\ UNCHANGED C
 
 TraceJac ==
@@ -87,11 +92,37 @@ TraceCb ==
            \* accepted (BDF works on differences instead)
            derivok == A.needDeriv = ""
            need == IF first \/ C.method = "BDF" \/ e.d \in A.recent THEN "" ELSE e.d
+           \* ---- Level B: the evaluations since the previous callback are (rejected attempts)* accepted attempt,
+           \* each attempt a fixed block of stage evaluations at x + c_i h (Stepper.tla Trial), as coded per method
+           explicit == C.method \in {"RK4", "RK23", "DOPRI5", "DOP853"} /\ C.api = "low"
+           per   == CASE C.method = "RK4" -> 4 [] C.method = "RK23" -> 3 [] C.method = "DOPRI5" -> 6 [] OTHER -> 11
+           extra == IF C.method = "DOP853" THEN (IF C.lowdense THEN 4 ELSE 1) ELSE 0
+           evs   == IF A.prevMod /\ Len(A.iv) >= 1 THEN Tail(A.iv) ELSE A.iv
+           body  == Len(evs) - extra
+           natt  == body \div per
+           \* the last stage of every attempt is at x + h: strictly shrinking over the rejected attempts, and the
+           \* accepted one ends exactly at the new x
+           ends  == [j \in 1..natt |-> evs[j * per]]
+           shape == /\ body >= per /\ body % per = 0
+                    /\ \A j \in 1..natt - 1 : ends[j] > ends[j + 1]
+                    /\ ends[natt] = e.x.r
+                    /\ \A j \in 1..Len(evs) : evs[j] >= e.xold.r /\ evs[j] <= ends[1]
+           lbok  == first \/ ~explicit \/ Len(A.iv) >= 4000 \/ shape
+           nrejNow == IF first \/ ~explicit \/ ~shape THEN 0 ELSE natt - 1
+           \* rejection counting rule of the code: RK23 counts every rejection; DOPRI5/DOP853 only once two steps were accepted
+           rejCounted == IF C.method = "RK23" THEN nrejNow ELSE IF A.mAcc > 1 THEN nrejNow ELSE 0
+           totNow == IF first THEN 0 ELSE IF C.method \in {"RK4", "RK23"} THEN 1 ELSE nrejNow + 1
        IN A' = [A EXCEPT !.nCb = @ + 1,
                          !.cbBad = IF ok THEN @ ELSE @ + 1,
                          !.ipBad = IF ipok THEN @ ELSE @ + 1,
                          !.derivBad = IF derivok THEN @ ELSE @ + 1,
                          !.recent = {}, !.needDeriv = need,
+                         !.iv = <<>>, !.prevMod = (e.ret = "Modified"),
+                         !.lbBad = IF lbok THEN @ ELSE @ + 1,
+                         !.mAtt = @ + nrejNow + (IF first THEN 0 ELSE 1),
+                         !.mAcc = IF first THEN @ ELSE @ + 1,
+                         !.mRej = @ + rejCounted,
+                         !.mTot = @ + totNow,
                          !.lastX = e.x.r, !.lastXb = e.x.b,
                          !.afterStop = IF A.interrupted THEN @ + 1 ELSE @,
                          !.interrupted = (e.ret = "Interrupt"),
@@ -124,6 +155,13 @@ TraceRet ==
        /\ Viol("C18", "counters", C18_Counters(C, A, R))
        /\ Viol("C18", "intervals", C18_Intervals(C, R))
        /\ Viol("C19", "protocol", C19_Protocol(C, A, R))
+       \* Level B conformance (drift, never a violation): attempt structure and the counters the model predicts
+       /\ LET lb == C.method \in {"RK4", "RK23", "DOPRI5", "DOP853"} /\ C.api = "low" /\ R.kind = "low"
+                      /\ R.status \in {"Success", "UserInterrupt"} /\ A.nCb < 1400 IN
+          /\ (lb /\ A.lbBad > 0) => PrintT(<<"DRIFT", "attempt_structure", C.id, C.method>>)
+          /\ (lb /\ A.lbBad = 0 /\ ~(R.naccpt = A.mAcc /\ R.nrejct = A.mRej /\ R.nstep = A.mTot))
+                => PrintT(<<"DRIFT", "counting_rule", C.id, C.method, <<R.naccpt, R.nrejct, R.nstep>>, <<A.mAcc, A.mRej, A.mTot>>>>)
+          /\ lb => PrintT(<<"COVER", C.method, A.mAcc, A.mAtt - A.mAcc>>)
     /\ A' = [A EXCEPT !.active = FALSE]
     /\ UNCHANGED C
 
